@@ -47,6 +47,7 @@ namespace irx {
     size_t pos = 0;
     std::vector<Dec> decs;
     std::map<const void *, int> site_hits;
+    std::set<const void *> undef_sites;
     std::unordered_map<unsigned, bool> dcache;
     std::vector<z3::expr> dkeep; // keeps decided conditions alive so that their AST ids stay valid cache keys
     long insts_path = 0;
@@ -115,6 +116,48 @@ namespace irx {
     Val symfp(const z3::expr & e) { Val x; x.k = Val::FP; x.sym = addterm(e); return x; }
 
     //---------------------------------------------------------------- solver
+    // free constants of a term (for cone-of-influence slicing of hard queries)
+    std::unordered_map<unsigned, std::shared_ptr<std::vector<unsigned>>> consts_cache;
+    std::shared_ptr<std::vector<unsigned>> consts_of(const z3::expr & t)
+    {
+      auto it = consts_cache.find(t.id());
+      if (it != consts_cache.end()) return it->second;
+      auto out = std::make_shared<std::vector<unsigned>>();
+      std::set<unsigned> seen, acc;
+      std::vector<z3::expr> todo{t};
+      while (!todo.empty()) {
+        z3::expr e = todo.back(); todo.pop_back();
+        if (!e.is_app() || !seen.insert(e.id()).second) continue;
+        unsigned n = e.num_args();
+        if (n == 0) { if (e.decl().decl_kind() == Z3_OP_UNINTERPRETED) acc.insert(e.id()); continue; }
+        for (unsigned i = 0; i < n; i++) todo.push_back(e.arg(i));
+      }
+      out->assign(acc.begin(), acc.end());
+      consts_cache[t.id()] = out;
+      return out;
+    }
+    // constraints of the path condition that (transitively) share a constant with `extra`; false when that is the whole pc
+    bool slice_pc(const z3::expr & extra, std::vector<size_t> & idx)
+    {
+      std::set<unsigned> vars(consts_of(extra)->begin(), consts_of(extra)->end());
+      std::vector<char> in(pc.size(), 0);
+      bool grew = true;
+      while (grew) {
+        grew = false;
+        for (size_t i = 0; i < pc.size(); i++) {
+          if (in[i]) continue;
+          auto cs = consts_of(pc[i]);
+          bool hit = false;
+          for (unsigned c : *cs) if (vars.count(c)) { hit = true; break; }
+          if (!hit) continue;
+          in[i] = 1; grew = true;
+          for (unsigned c : *cs) vars.insert(c);
+        }
+      }
+      idx.clear();
+      for (size_t i = 0; i < pc.size(); i++) if (in[i]) idx.push_back(i);
+      return idx.size() < pc.size();
+    }
     bool is_hard(const z3::expr & t)
     {
       if (!t.is_app()) return false;
@@ -171,6 +214,21 @@ namespace irx {
         s.add(extra);
         try { r = s.check(); } catch (z3::exception &) { r = z3::unknown; }
         if (r == z3::sat) { try { z3::model mm = s.get_model(); if (out) *out = mm; last_model.reset(new z3::model(mm)); model_pc_n = pc.size(); } catch (z3::exception &) { last_model.reset(); } }
+        if (r == z3::unknown) {
+          // second attempt on the cone of influence of `extra` alone: unsat there is unsat of the whole query (sound)
+          std::vector<size_t> idx;
+          if (!getenv("IRX_NOSLICE") && slice_pc(extra, idx)) {
+            z3::solver ss(ctx);
+            z3::params sp(ctx);
+            sp.set("timeout", opt.timeout_ms);
+            ss.set(sp);
+            for (size_t i : idx) ss.add(pc[i]);
+            ss.add(extra);
+            z3::check_result sr;
+            try { sr = ss.check(); } catch (z3::exception &) { sr = z3::unknown; }
+            if (sr == z3::unsat) { r = z3::unsat; st.sliced_unsat++; }
+          }
+        }
       }
       st.solver_s += std::chrono::duration<double>(clk::now() - t0).count();
       if (r == z3::unknown) { st.unknown++; path_unknowns++; }
@@ -306,7 +364,7 @@ namespace irx {
       Obj & o    = deref(p, n, "store");
       if (o.constant) { st.mem_errors++; report_path_event("memory_error", "store to constant object " + o.name); throw PathEnd{"memerr"}; }
       Byte * b = &o.bytes[p.off];
-      if (v.k == Val::UNDEF) { for (uint64_t i = 0; i < n; i++) b[i] = Byte(); return; }
+      if (v.k == Val::UNDEF || v.undef) { for (uint64_t i = 0; i < n; i++) b[i] = Byte(); return; }   // storing an indeterminate value leaves the bytes indeterminate
       if (v.k == Val::INT && !v.is_sym()) { for (uint64_t i = 0; i < n; i++) { b[i] = Byte(); b[i].k = Byte::CONC; b[i].c = i < 8 ? (uint8_t)(v.c >> (8 * i)) : 0; } return; }
       if (v.k == Val::INT && v.bits <= 8) { b[0] = Byte(); b[0].k = Byte::SYMB; b[0].sym = v.bits == 8 ? v.sym : addterm(z3::zext(terms[v.sym], 8 - v.bits)); return; }
       auto w = std::make_shared<Val>(v);
@@ -353,9 +411,10 @@ namespace irx {
         if (!T->isIntegerTy() || all_uninit) {
           // reading indeterminate memory: the value is arbitrary (fresh symbol); counted
           st.uninit_reads++;
-          if (T->isPointerTy()) return Val::mk_ptr(0, 0);
-          if (T->isFloatingPointTy()) return symfp(ctx.real_const(("uninit_f" + std::to_string(fresh_counter++)).c_str()));
+          if (T->isPointerTy()) { Val pv = Val::mk_ptr(0, 0); pv.undef = true; return pv; }
+          if (T->isFloatingPointTy()) { Val fv = symfp(ctx.real_const(("uninit_f" + std::to_string(fresh_counter++)).c_str())); fv.undef = true; return fv; }
           Val fv = symint(ctx.bv_const(("uninit_i" + std::to_string(fresh_counter++)).c_str(), T->getIntegerBitWidth()), T->getIntegerBitWidth());
+          fv.undef = true;
           return fv;
         }
         // partially initialised integer (struct copies through padding): only the indeterminate bytes are arbitrary
@@ -433,6 +492,7 @@ int main(int argc, char ** argv)
     std::string a = argv[i];
     if (a == "--entry" && i + 1 < argc) entry = argv[++i];
     else if (a == "--K" && i + 1 < argc) opt.max_site_hits = atoi(argv[++i]);
+    else if (a == "--sqrt-square") setenv("IRX_SQRT_SQUARE", "1", 1);   // add sqrt(x)^2 == x for every symbolic sqrt
     else if (a == "--max-paths" && i + 1 < argc) opt.max_paths = atol(argv[++i]);
     else if (a == "--timeout-ms" && i + 1 < argc) opt.timeout_ms = atoi(argv[++i]);
     else if (a == "--max-insts" && i + 1 < argc) opt.max_insts_per_path = atol(argv[++i]);
